@@ -51,6 +51,10 @@ claim('C13', 'CrossHair symbolic execution of the real InteractiveParser / Immut
       '(prefix, fork kind, two continuations, interleaving, accepts step; resume/exhaust with text attached; resume from an error state)',
       'Bounded in prefix/continuation length and fork depth (2 levels); every parser must end with parse() of exactly its own token sequence; accepts() exact.',
       'Trusted: the real parser run afresh on each sequence is the reference (the property is relational).', '3/C13')
+claim('C14', 'CrossHair solver-closed enumeration of class-strings and TextSlice windows (symbolic integer offsets) through the real scan(); the property itself is evaluated with parse() on substrings '
+      '(values, full-text positions, ignored-text boundaries, longest, nothing skipped)',
+      'Bounded by text length over the alphabet partition; all windows [a, b); basic and contextual lexers; str and bytes. The longest/skipped clauses are asserted for spans whose isolated '
+      'tokenisation equals the in-context one (others counted).', 'Relational: parse() on the substring is the reference; refsem.posref for coordinates.', '3/C14')
 claim('C18', 'CrossHair symbolic execution of the real Indenter: one handle_NL step from an arbitrary symbolic state (unbounded stack values, bracket depth, tab_len) and bounded '
       'lazily realised token streams incl. streams after an abandoned/failed earlier stream, vs. CPython\'s stack algorithm and the real tokenize module',
       'The step harness is inductive (one step from an arbitrary valid state covers streams of any length) for stack depth <= 6; streams are bounded in length.',
